@@ -2,7 +2,7 @@
    Only statements closed by [exact]; the lemmas live in Proofs/Reference.v.
    The regular expressions are Generated/Regexes.v (re-translated from
    registry/reference.go on every run). *)
-From Oras Require Import Base.Prelude Base.Regex Generated.GC20 Model.Reference Model.RefOps Proofs.Reference Proofs.RefOps.
+From Oras Require Import Base.Prelude Base.Regex Generated.GC20 Model.Reference Model.RefOps Proofs.Reference Proofs.RefOps Proofs.RefURL.
 
 (* ParseReference accepts exactly the grammar (any registry predicate). *)
 Theorem C20_parse_iff_grammar :
@@ -100,6 +100,72 @@ Theorem C20_url_slot :
     after_last c_slash (url_referrers plain r) = r_reference r.
 Proof. exact url_slot. Qed.
 Print Assumptions C20_url_slot.
+
+(* URL slot at full strength.  [url_is u plain r seg] (Proofs/RefURL.v) says, under the generic URL
+   syntax of RFC 3986 (Model url_split: authority ends at the first '/', '?', '#'; path at the first
+   '?', '#'): u splits into scheme, authority = exactly the registry's host (no '@', so no
+   user-info; non-empty), path = /v2/<repository>/<seg>/<reference> whose '/'-segments are exactly
+   "", "v2", the repository's components, seg, the reference -- and NO query and NO fragment.
+   The single fact about net/url used: an accepted registry is non-empty and contains none of
+   controls/space # % / ? @ \ DEL ([reg_clean]); the harness checks it on every reference the
+   implementation accepts (oracle signature registry-charset). *)
+Theorem C20_url_exact :
+  forall (valid_registry : str -> bool) plain r,
+    (forall reg, valid_registry reg = true -> reg_clean reg = true) ->
+    wf_ref valid_registry r -> r_reference r <> [] ->
+    url_is (url_manifest plain r) plain r (b "manifests") /\
+    url_is (url_blob plain r) plain r (b "blobs") /\
+    url_is (url_referrers plain r) plain r (b "referrers").
+Proof. exact url_exact. Qed.
+Print Assumptions C20_url_exact.
+
+Theorem C20_url_exact_noref :
+  forall (valid_registry : str -> bool) plain r,
+    (forall reg, valid_registry reg = true -> reg_clean reg = true) -> wf_ref valid_registry r ->
+    url_split (url_taglist plain r)
+    = Some (mkParts (scheme plain) (host_of (r_registry r)) (b "/v2/" ++ r_repository r ++ b "/tags/list") None None) /\
+    url_split (url_upload plain r)
+    = Some (mkParts (scheme plain) (host_of (r_registry r)) (b "/v2/" ++ r_repository r ++ b "/blobs/uploads/") None None).
+Proof. exact url_exact_noref. Qed.
+Print Assumptions C20_url_exact_noref.
+
+(* the registry hypothesis is needed: with an unconstrained registry predicate the whole path of
+   a "well-formed" reference lands in the query/fragment (this is why C20_url_slot alone, which
+   holds for any registry predicate, does not give the slot) *)
+Theorem C20_url_exact_unconstrained_registry_refuted :
+  exists (valid_registry : str -> bool) r,
+    wf_ref valid_registry r /\ r_reference r <> [] /\
+    url_split (url_manifest false r)
+    = Some (mkParts (b "https") (b "h") [] (Some (b "x")) (Some (b "y/v2/a/manifests/t"))).
+Proof.
+  exists (fun _ => true), (mkRef (b "h?x#y") (b "a") (b "t")).
+  unfold wf_ref, ok_registry. repeat split; try (vm_compute; reflexivity); try discriminate.
+  right. left. vm_compute. reflexivity.
+Qed.
+Print Assumptions C20_url_exact_unconstrained_registry_refuted.
+
+Example C20_url_exact_nonvacuous :
+  (forall reg, reg_clean reg = true -> reg_clean reg = true) /\
+  reg_clean (b "localhost:5000") = true /\ reg_clean (b "[::1]:5000") = true /\ reg_clean (b "h?x") = false /\
+  url_split (url_manifest true (mkRef (b "localhost:5000") (b "hello/world") (b "v1")))
+  = Some (mkParts (b "http") (b "localhost:5000") (b "/v2/hello/world/manifests/v1") None None) /\
+  split_on c_slash (b "/v2/hello/world/manifests/v1") = [[]; b "v2"; b "hello"; b "world"; b "manifests"; b "v1"].
+Proof. repeat split; auto; vm_compute; reflexivity. Qed.
+
+(* every request of every reference-taking operation: exact path in the base repository, no
+   query / fragment / user-info (x is the resolved reference or the digest of the descriptor
+   being tagged) *)
+Theorem C20_op_requests_exact_paths :
+  forall (valid_registry : str -> bool) op plain breg brepo s d reqs,
+    (forall reg, valid_registry reg = true -> reg_clean reg = true) ->
+    ok_registry valid_registry breg -> valid_repository brepo = true -> valid_digest d = true ->
+    op_requests valid_registry op plain breg brepo s d = Some reqs ->
+    exists r, repo_parse valid_registry breg brepo s = Some r /\
+      Forall (fun mu => exists seg x,
+                (seg = b "manifests" \/ seg = b "blobs") /\ (x = r_reference r \/ x = d) /\
+                url_is (snd mu) plain (mkRef breg brepo x) seg) reqs.
+Proof. exact op_requests_exact_paths. Qed.
+Print Assumptions C20_op_requests_exact_paths.
 
 (* every reference-taking Repository operation (Resolve, FetchReference, Tag, PushReference on
    manifests; Resolve, FetchReference on blobs) that accepts a reference string builds its
